@@ -208,6 +208,9 @@ func replayC18(w core.Witness) string {
 	if v, ok := w.Args["option_set"].(float64); ok {
 		o = int(v)
 	}
+	if w.Kind == "scope-rest" {
+		return replayC18ScopeRest(w)
+	}
 	in := [][]rune{witnessRunes(w)}
 	if w.Kind == "local-form" {
 		var ast gen.Node
@@ -260,6 +263,7 @@ func runC18(r *core.Run) int {
 	nPat := r.Pick(4000, 60000)
 	nDirected := r.Pick(10, 20)
 	base := rand.New(rand.NewSource(r.Seed*198491317 + 18)).Int63()
+	runC18ScopeRest(r)
 	r.Parallel(nPat, func(i int, l *core.Local) {
 		rng := rand.New(rand.NewSource(base + int64(i)*1000003))
 		var src string
@@ -465,7 +469,7 @@ func runC18(r *core.Run) int {
 	_ = ref.IsWord
 	r.Extras["bounds"] = map[string]any{"patterns": nPat, "option_subsets": 32, "spellings": 3, "inputs_per_pattern": nDirected + 15}
 	return r.Finish(
-		"random ASTs whose meaning depends on the options (letters of both cases, ^ $ ., unnamed groups, raw whitespace and newline-terminated # comments, nested inline on/off groups) and corpus patterns; for each of the 32 subsets O of {i,m,s,n,x}: Compile(P,O), Compile((?O)P) and Compile((?O:P)) must have the same group map and the same find results (position and all captures) on every input and several start offsets; plus (?O:A(?-O)B)C against (?O:A)BC on independent atoms; evaluation = one (pattern, option subset); non-trivial = distinct (pattern, option subset) with at least one match",
+		"random ASTs whose meaning depends on the options (letters of both cases, ^ $ ., unnamed groups, raw whitespace and newline-terminated # comments, nested inline on/off groups) and corpus patterns; for each of the 32 subsets O of {i,m,s,n,x}: Compile(P,O), Compile((?O)P) and Compile((?O:P)) must have the same group map and the same find results (position and all captures) on every input and several start offsets; plus (?O:A(?-O)B)C against (?O:A)BC on independent atoms; plus, for 34 constructs K that the parser handles on paths of their own (back-references in four spellings incl. (?P=n), conditionals, balancing / named / atomic groups, look-arounds, comments, nested switches, classes; RE2 spellings under RE2), all 31 non-empty O and three scope spellings, PRE(?O:Kx)REST against PRE(?O:Kx)(?-O:REST) with a REST that shows every option should it outlive the group; evaluation = one (pattern, option subset); non-trivial = distinct (pattern, option subset) with at least one match",
 		[]string{"relation between three compilations of the same text: no external oracle needed"},
-		map[string]int64{"evaluations": 20000, "distinct_nontrivial": 5000, "law_scoping": 1000, "law_group-map": 10000})
+		map[string]int64{"evaluations": 20000, "distinct_nontrivial": 5000, "law_scoping": 1000, "law_group-map": 10000, "law_scope-rest": 50000})
 }
